@@ -6,7 +6,10 @@
 // (locked snapshot hook) are compared with the shadow. Concurrent leg (child processes, this binary is
 // built with -race): 3-4 goroutines issue short op lists against one Connections, the recorded
 // history is checked for linearizability against the same shadow model with porcupine, and an
-// unrecorded stress loop lets the race detector watch every method.
+// unrecorded stress loop lets the race detector watch every method. Daemon legs (child processes,
+// dmn.go and real.go): the same events delivered to a running daemon.Daemon through its gnet callbacks
+// and message handlers, and real-socket scenarios with low pool limits, checked against the shadow /
+// against the connections the harness really holds.
 package main
 
 import (
@@ -511,8 +514,15 @@ func report(r *vf.Run, f *finding, hits int64) {
 func main() {
 	logging.SetLevel(logrus.PanicLevel)
 	logging.Disable()
-	if vf.ChildMode() == "conc" {
+	switch vf.ChildMode() {
+	case "conc":
 		concChild()
+		return
+	case "dmn":
+		dmnChild()
+		return
+	case "dmnreal":
+		realChild()
 		return
 	}
 	r := vf.Start("C24", "exploration")
@@ -554,8 +564,20 @@ func main() {
 		r.Eval(1)
 	}
 
+	// daemon legs (child processes) run next to the in-process legs
+	dmnDone := make(chan struct{})
+	go func() {
+		defer close(dmnDone)
+		dmnParent(r)
+		realParent(r)
+	}()
+
 	// random sequences
 	nSeq := r.Pick(20000, 600000)
+	onlyDmn := os.Getenv("C24_LEGS") == "dmn" // development aid: daemon legs only (the other floors then fail)
+	if onlyDmn {
+		nSeq = 0
+	}
 	const workers = 16
 	var mu sync.Mutex
 	allStates := map[uint64]struct{}{}
@@ -623,7 +645,10 @@ func main() {
 	}
 
 	// concurrent leg
-	concParent(r)
+	if !onlyDmn {
+		concParent(r)
+	}
+	<-dmnDone
 
 	// floors: every transition class of the state machine, refusals of every kind, clean drains
 	scale := int64(1)
@@ -647,14 +672,36 @@ func main() {
 	r.Floor("conc.linearizable", int64(r.Pick(250, 3500)))
 	r.Floor("conc.histories-with-overlap", int64(r.Pick(60, 600)))
 	r.Floor("race.stress-ops", int64(r.Pick(20000, 300000)))
+	// daemon legs: every handler on every state, every failure error value on a pending connection,
+	// the pool's own refusals really occurring on real sockets
+	for k, v := range map[string][2]int{
+		"dmn.events": {4000, 80000}, "dmn.seq.drained-empty": {250, 5000}, "dmn.states.distinct": {500, 5000},
+		"dmn.failure.pending.applied": {200, 4000}, "dmn.connect.pending.applied": {100, 2000}, "dmn.connect.none.applied": {400, 8000},
+		"dmn.intro.connected.applied": {200, 4000}, "dmn.disconnect.connected.applied": {200, 4000}, "dmn.disconnect.introduced.applied": {200, 4000},
+		"dmn.redial-after-failure": {50, 1000},
+		"real.scenario.slots":      {2, 12}, "real.scenario.defaults": {2, 12}, "real.final-states-compared": {8, 48}, "real.checks": {25, 150},
+		"real.redialled-after-refusal":          {2, 12},
+		"real.log.connect-failure.max-outgoing": {2, 12}, "real.log.connect-failure.max-incoming": {2, 12}, "real.log.connect-failure.max-outgoing-default": {1, 6},
+	} {
+		r.Floor(k, int64(r.Pick(v[0], v[1])))
+	}
+	for _, x := range failureErrors("11.1.1.1:6000") {
+		r.Floor("dmn.failure-error."+x.name+".pending", int64(r.Pick(3, 60)))
+	}
 
 	r.Finish("random event sequences (5-40 events + drain) over 3 IPs x 3 ports, mirrors {0,1,2}, listen ports {0,6000,6001}, fresh/zero/foreign/stale connection ids, "+
 		"with deliberate wrong-state and wrong-id events; a case is non-trivial when it reaches a registry state (canonical shadow snapshot) not seen before; "+
-		"concurrent histories: 3-4 clients x 4-6 ops on 2-3 addresses of one IP, checked with porcupine; race detector on the whole binary",
+		"concurrent histories: 3-4 clients x 4-6 ops on 2-3 addresses of one IP, checked with porcupine; race detector on the whole binary; "+
+		"daemon legs: the same kind of sequences delivered to a running daemon.Daemon through its gnet callbacks and IntroductionMessage.Handle (connect, disconnect with 24 reasons, "+
+		"connect failure with 20 error values, introduction; outgoing attempt and SetHeight through the registry), compared with the shadow after a FIFO barrier per event; "+
+		"and two real-socket scenarios (trusted peers = harness listeners, 2 outgoing / 2 default / 1 incoming slots) checked against the connections the harness really holds",
 		"gnet connection ids are unique among live connections (gnet hands them out from a counter); connected() is never called with an id that another live connection holds",
 		"zero-valued ipCounts entries and empty inner mirror maps are treated as absent (observationally equal through IPCount)",
 		"the return value of remove() for an unknown address is not compared (comment and code disagree); only that nothing changes",
 		"addresses with port 0 are not used as connection addresses (listen port 0 is exercised through the introduction message)",
+		"daemon legs: a connect-failure event amounts to remove(addr, id 0) whatever its error value; the registry is compared at quiescent points only (FIFO barrier through the daemon's event channel; "+
+			"on real sockets additionally every daemon/gnet goroutine parked in its idle place); a pending entry for an address the daemon may be dialling is stale only if it survives 7 consecutive quiescent rounds",
+		"data-race reports of the daemon as a whole (e.g. pool map lengths read outside the strand) are counted, not judged: only the five registry maps are the subject",
 	)
 }
 
@@ -668,7 +715,7 @@ func replay(r *vf.Run, path string) {
 		Witness witness `json:"witness"`
 	}
 	if err := json.Unmarshal(b, &doc); err != nil || len(doc.Witness.Events) == 0 {
-		fmt.Fprintln(os.Stderr, "replay file has no event sequence (concurrent histories cannot be replayed deterministically)")
+		fmt.Fprintln(os.Stderr, "replay file has no registry event sequence (concurrent histories and daemon-leg witnesses are narratives; re-run the check with the same VERIF_SEED)")
 		os.Exit(3)
 	}
 	s := &seqRun{cnt: counters{}, keepGo: true, states: map[uint64]struct{}{}}
